@@ -28,7 +28,7 @@ for sd in seeds:
             print(sd, 'PATCH DOES NOT APPLY', a.stderr[:200]); continue
         for p in props:
             rd = tempfile.mkdtemp(prefix='reseedrep-', dir='/var/tmp')
-            r = subprocess.run([FROZEN + '/bin/govc', 'check', '--property', p, '--repo', wt, '--no-evidence', '--replay-dir', rd], cwd=FROZEN, capture_output=True, text=True, env=dict(os.environ, GOVC_VERIF_DIR=FROZEN))
+            r = subprocess.run([FROZEN + '/bin/govc', 'check', '--property', p, '--repo', wt, '--no-evidence', '--replay-dir', rd], cwd=FROZEN, capture_output=True, text=True, env=dict(os.environ, GOVC_VERIF_DIR=FROZEN, TMPDIR=rd))
             shutil.rmtree(rd, ignore_errors=True)
             viol = [l for l in (r.stdout + r.stderr).split('\n') if l.startswith('govc: ') and '#' in l]
             results[p] = {'exit': r.returncode, 'violations': len([l for l in r.stdout.split('\n') if l.startswith('VIOLATION')]), 'failed_obligations': [v[6:170] for v in viol][:6]}
